@@ -82,6 +82,15 @@ func c19Check(k c19Case) (string, string) {
 		if t.Value() != k.V&0x3FFF {
 			return "dec-enc-identity", fmt.Sprintf("Value(ReadValue(%#04x))=%#04x", k.V, t.Value())
 		}
+		// a reused receiver (Message.Decode reads into m.Type of a reused Message) must be overwritten completely
+		for _, prev := range []uint16{^k.V, 0xFFFF, 0x0000, 0x2AAA, 0x1555} {
+			var r stun.MessageType
+			r.ReadValue(prev)
+			r.ReadValue(k.V)
+			if uint16(r.Method) != wm || uint8(r.Class) != wc {
+				return "dec-stale-receiver", fmt.Sprintf("ReadValue(%#04x) into a MessageType that held ReadValue(%#04x) gives (method %#x,class %d), want (%#x,%d)", k.V, prev, uint16(r.Method), r.Class, wm, wc)
+			}
+		}
 		// through the wire: Decode of a bare header with this type word
 		raw := make([]byte, 20)
 		raw[0], raw[1] = byte(k.V>>8), byte(k.V)
